@@ -9,6 +9,7 @@ package e2ex
 
 import (
 	"context"
+	"sync"
 	"errors"
 	"fmt"
 	"math"
@@ -94,6 +95,41 @@ type e2eCase struct {
 	hist   []string
 	pool   []string
 	pks    []string
+	// notifications the application must receive, per key, in order: "type:version" ("range:end" for range deletes)
+	expectN map[string][]string
+	nExpect int
+	// shards on which a key was changed: the order of notifications is defined per shard only
+	keyShards map[string]map[int64]bool
+}
+
+func (c *e2eCase) expectNotif(sh int64, key, what string) {
+	c.expectN[key] = append(c.expectN[key], what)
+	c.nExpect++
+	if c.keyShards[key] == nil {
+		c.keyShards[key] = map[int64]bool{}
+	}
+	c.keyShards[key][sh] = true
+}
+
+func (c *e2eCase) expectFromEffects(sh int64, eff *model.Effects) {
+	for k, v := range eff.Written {
+		if eff.WrittenMC[k] == 0 {
+			c.expectNotif(sh, k, fmt.Sprintf("created:%d", v))
+		} else {
+			c.expectNotif(sh, k, fmt.Sprintf("modified:%d", v))
+		}
+	}
+	for k := range eff.Removed {
+		covered := false
+		for _, r := range eff.Ranges {
+			if model.CompareKeys(k, r[0]) >= 0 && model.CompareKeys(k, r[1]) < 0 {
+				covered = true
+			}
+		}
+		if !covered {
+			c.expectNotif(sh, k, "deleted")
+		}
+	}
 }
 
 func (c *e2eCase) logf(f string, a ...any) { c.hist = append(c.hist, fmt.Sprintf(f, a...)) }
@@ -171,9 +207,11 @@ func (c *e2eCase) put() {
 			c.fail("put of %q reported the inserted key %q", key, gotKey)
 		}
 	}
-	if _, err := m.Apply(&proto.WriteRequest{Puts: []*proto.PutRequest{req}}, &proto.WriteResponse{Puts: []*proto.PutResponse{resp}}, ver.ModifiedTimestamp); err != nil {
+	eff, err := m.Apply(&proto.WriteRequest{Puts: []*proto.PutRequest{req}}, &proto.WriteResponse{Puts: []*proto.PutResponse{resp}}, ver.ModifiedTimestamp)
+	if err != nil {
 		c.fail("shard %d: %v", sh, err)
 	}
+	c.expectFromEffects(sh, eff)
 }
 
 func (c *e2eCase) del() {
@@ -203,9 +241,11 @@ func (c *e2eCase) del() {
 	if !known {
 		c.fail("delete failed with an error that is not an operation status: %v", err)
 	}
-	if _, err := m.Apply(&proto.WriteRequest{Deletes: []*proto.DeleteRequest{req}}, &proto.WriteResponse{Deletes: []*proto.DeleteResponse{{Status: st}}}, 0); err != nil {
+	eff, err := m.Apply(&proto.WriteRequest{Deletes: []*proto.DeleteRequest{req}}, &proto.WriteResponse{Deletes: []*proto.DeleteResponse{{Status: st}}}, 0)
+	if err != nil {
 		c.fail("shard %d: %v", sh, err)
 	}
+	c.expectFromEffects(sh, eff)
 }
 
 func (c *e2eCase) bounds() (string, string) {
@@ -249,6 +289,8 @@ func (c *e2eCase) deleteRange() {
 		if _, err := m.Apply(req, resp, 0); err != nil {
 			c.fail("shard %d: %v", sh, err)
 		}
+		// one range notification per shard the request was applied on
+		c.expectNotif(sh, a, "range:"+b)
 	}
 }
 
@@ -499,6 +541,34 @@ func runE2EModel(t *rapid.T, focus string) {
 	for _, r := range c.ranges {
 		c.models[r.id] = model.New()
 	}
+	c.expectN = map[string][]string{}
+	c.keyShards = map[string]map[int64]bool{}
+	ns, err := cl.GetNotifications()
+	if err != nil {
+		t.Skip("inconclusive: GetNotifications: " + err.Error())
+	}
+	var nmu sync.Mutex
+	gotN := map[string][]string{}
+	nGot := 0
+	go func() {
+		for n := range ns.Ch() {
+			var what string
+			switch n.Type {
+			case oxia.KeyCreated:
+				what = fmt.Sprintf("created:%d", n.VersionId)
+			case oxia.KeyModified:
+				what = fmt.Sprintf("modified:%d", n.VersionId)
+			case oxia.KeyDeleted:
+				what = "deleted"
+			case oxia.KeyRangeRangeDeleted:
+				what = "range:" + n.KeyRangeEnd
+			}
+			nmu.Lock()
+			gotN[n.Key] = append(gotN[n.Key], what)
+			nGot++
+			nmu.Unlock()
+		}
+	}()
 	c.logf("standalone shards=%d pool=%q", srv.n, c.pool)
 	writes, fanOut, restarted := 0, 0, false
 	n := rapid.IntRange(4, 30).Draw(t, "nOps")
@@ -547,6 +617,40 @@ func runE2EModel(t *rapid.T, focus string) {
 		}
 	}
 	c.listAndScan()
+	// C17 through the whole stack: the application has received, per key, exactly the changes the model computed,
+	// in order (range deletes: one per shard the request was applied on; the order among them is free)
+	deadline := time.Now().Add(10 * time.Second)
+	for time.Now().Before(deadline) {
+		nmu.Lock()
+		n := nGot
+		nmu.Unlock()
+		if n >= c.nExpect {
+			break
+		}
+		time.Sleep(10 * time.Millisecond)
+	}
+	time.Sleep(30 * time.Millisecond)
+	nmu.Lock()
+	for k, want := range c.expectN {
+		got := gotN[k]
+		w, g := append([]string(nil), want...), append([]string(nil), got...)
+		if len(c.keyShards[k]) > 1 || (len(w) > 0 && strings.HasPrefix(w[0], "range:")) {
+			sort.Strings(w)
+			sort.Strings(g)
+		}
+		if strings.Join(w, " ") != strings.Join(g, " ") {
+			nmu.Unlock()
+			c.fail("notifications for key %q: the application received %v, the committed changes are %v (C17, end to end)", k, got, want)
+		}
+	}
+	for k, got := range gotN {
+		if len(c.expectN[k]) == 0 {
+			nmu.Unlock()
+			c.fail("notifications for key %q: the application received %v, no committed change touched that key (C17, end to end)", k, got)
+		}
+	}
+	nmu.Unlock()
+	_ = ns.Close()
 	var labels []string
 	if srv.n > 1 {
 		labels = append(labels, "several_shards")
@@ -558,8 +662,15 @@ func runE2EModel(t *rapid.T, focus string) {
 	if focus == "C20" {
 		nontrivial = nontrivial && srv.n > 1
 	}
+	if focus == "C17" {
+		nontrivial = c.nExpect >= 3
+		if restarted {
+			labels = append(labels, "notifications_across_server_restart")
+		}
+	}
 	evid.Case(focus, nontrivial, "e2e "+strings.Join(c.hist, "; "), labels...)
 }
 
 func TestC12_E2E(t *testing.T) { rapid.Check(t, func(t *rapid.T) { runE2EModel(t, "C12") }) }
+func TestC17_E2E(t *testing.T) { rapid.Check(t, func(t *rapid.T) { runE2EModel(t, "C17") }) }
 func TestC20_E2E(t *testing.T) { rapid.Check(t, func(t *rapid.T) { runE2EModel(t, "C20") }) }
